@@ -67,16 +67,13 @@ def handle : String → Option (P String)
       let ns ← bitsList; done
       pure (match joinedNorms geoBits ns with | .ok l => showBits l | .error _ => "FAULT")
   -- GROUPTRACE group_end_type join_type k len1 … lenk → (size, j, k) of every cap / OffsetPoint call a delta callback
-  -- sees while the group is offset; `end_type_` is threaded from path to path exactly as `DoGroupOffset` does
+  -- sees while the group is offset (`end_type_` is reset to the group's end type for every path of two or more points)
   | "GROUPTRACE" => some do
       let grpEt ← endType; let jt ← joinType; let lens ← ints; done
-      let r := lens.foldl (fun (acc : EndType × List Int) (n : Int) =>
+      let r := lens.flatMap (fun (n : Int) =>
         let n := n.toNat
-        if n == 1 then (acc.1, acc.2 ++ [1, 0, 0])
-        else
-          let et' := endTypeFor jt grpEt acc.1 n
-          (et', acc.2 ++ (idxTrace et' n).flatMap (fun jk => [(n : Int), (jk.1 : Int), (jk.2 : Int)]))) (grpEt, [])
-      pure (showInts r.2)
+        (pathTrace jt grpEt n).flatMap (fun jk => [(n : Int), (jk.1 : Int), (jk.2 : Int)]))
+      pure (showInts r)
   -- BRANCH jt temp_lim group_delta sin_a cos_a same
   | "BRANCH" => some do
       let jt ← joinType; let tl ← rat; let gd ← rat; let s ← rat; let c ← rat; let same ← bool; done
